@@ -183,6 +183,8 @@ class DTWSettings:
         _, _, ival_fn = innerdistance.inner_dist_fns(self.inner_dist, use_ndim=self.use_ndim)
         if self.use_pruning:
             self.adj_max_dist = ival_fn(ub_euclidean(s1, s2, inner_dist=self.inner_dist, use_ndim=self.use_ndim))
+            # Rounding (e.g., sqrt followed by squaring) must not prune the Euclidean alignment itself
+            self.adj_max_dist *= (1 + 1e-12)
 
     def kwargs(self):
         return {
